@@ -9,7 +9,7 @@ git -C /repo worktree add -q --detach "$WT" HEAD || exit 2
 if ! git -C "$WT" apply --3way "$PATCH" 2>/dev/null && ! git -C "$WT" apply "$PATCH"; then
   echo "PATCH DOES NOT APPLY"; git -C /repo worktree remove --force "$WT"; exit 3
 fi
-( cd /verif && VERIF_REPO="$WT" VERIF_NO_CACHE=1 ./vf "$@" )
+( cd /verif && VERIF_REPO="$WT" ./vf "$@" )
 rc=$?
 git -C /repo worktree remove --force "$WT"
 exit $rc
